@@ -167,7 +167,9 @@ theorem staleLoop_spec {U : Tx → Prop} (hw : WF U) (isOK : Tx → Bool) (feer 
             rw [List.map_append, List.map_cons, List.nodup_append] at hnd
             exact hnd.2.2 e.id (List.mem_map_of_mem he) itm.id (by simp) hid
           have hL : LoopInv U (acc ++ [itm]) rest
-              { mp' with conflicts := addConflictEntries mp'.conflicts itm.id itm.conflicts } := by
+              { mp' with conflicts := addConflictEntries mp'.conflicts itm.id itm.conflicts
+                         resent := if dueForResend mp'.resendThreshold feer.height (mp'.stamp itm.id)
+                           then mp'.resent ++ [itm.id] else mp'.resent } := by
             have heq : acc ++ [itm] ++ rest = acc ++ itm :: rest := by simp
             refine ⟨by rw [heq]; exact h.list, by rw [heq]; show VmapOk _ mp'.vmap; rw [c4]; exact h.vmap,
               by rw [heq]; show OrcOk _ mp'.oracleResp; rw [c6]; exact h.orc, ?_, c1 rfl, by show mp'.panicked = false; rw [c9]; exact h.noPanic⟩
@@ -204,7 +206,7 @@ theorem inv_removeStale {U : Tx → Prop} (hw : WF U) {mp : Pool} (hi : Inv U mp
     unfold loadPolicy; split <;> exact ⟨rfl, rfl, rfl, rfl, rfl⟩
   obtain ⟨l1, l2, l3, l4, l5⟩ := hlp
   have h0 : LoopInv U [] (loadPolicy mp feer).1.txs
-      { (loadPolicy mp feer).1 with fees := fun _ => none, conflicts := fun _ => none } := by
+      { (loadPolicy mp feer).1 with fees := fun _ => none, conflicts := fun _ => none, resent := [] } := by
     rw [l1]
     refine ⟨by simpa using hi.list, ?_, ?_, ?_, ?_, ?_⟩
     · show VmapOk ([] ++ mp.txs) (loadPolicy mp feer).1.vmap
@@ -222,5 +224,69 @@ theorem inv_removeStale {U : Tx → Prop} (hw : WF U) {mp : Pool} (hi : Inv U mp
   obtain ⟨a, b, c, d, e, f⟩ := r1
   simp only [List.append_nil] at a b c
   exact ⟨⟨f, Nat.le_trans r2'.length_le (hc.symm ▸ hi.cap), a, b, d, c, e⟩, r2', hc⟩
+
+/-! ### the resend bookkeeping of RemoveStale -/
+
+theorem tryAdd_aux (mp : Pool) (t : Tx) (feer : Feer) (b : Bool) :
+    (tryAddSendersFee mp t feer b).1.stamp = mp.stamp ∧
+    (tryAddSendersFee mp t feer b).1.resendThreshold = mp.resendThreshold ∧
+    (tryAddSendersFee mp t feer b).1.resent = mp.resent := by
+  unfold tryAddSendersFee
+  simp only
+  repeat' split
+  all_goals exact ⟨rfl, rfl, rfl⟩
+
+/-- the resend log of the `RemoveStale` loop: exactly the kept items that are due, in list order -/
+theorem staleLoop_resent (isOK : Tx → Bool) (feer : Feer) (pc : Bool) (thr : Nat) (st : Nat → Nat) :
+    ∀ (rest : List Tx) (mp : Pool) (acc : List Tx), mp.resendThreshold = thr → mp.stamp = st →
+      mp.resent = (acc.filter (fun t => dueForResend thr feer.height (st t.id))).map (·.id) →
+      (staleLoop isOK feer pc rest mp acc).1.resent
+        = ((staleLoop isOK feer pc rest mp acc).2.filter (fun t => dueForResend thr feer.height (st t.id))).map (·.id) ∧
+      (staleLoop isOK feer pc rest mp acc).1.resendThreshold = thr ∧
+      (staleLoop isOK feer pc rest mp acc).1.stamp = st := by
+  intro rest
+  induction rest with
+  | nil => intro mp acc h1 h2 h3; simp only [staleLoop]; exact ⟨h3, h1, h2⟩
+  | cons itm rest ih =>
+    intro mp acc h1 h2 h3
+    simp only [staleLoop]
+    split
+    · obtain ⟨a1, a2, a3⟩ := tryAdd_aux mp itm feer true
+      cases hres : tryAddSendersFee mp itm feer true with
+      | mk mp' b =>
+        rw [hres] at a1 a2 a3
+        cases b with
+        | true =>
+          simp only
+          apply ih
+          · exact a2.trans h1
+          · exact a1.trans h2
+          · show (if dueForResend mp'.resendThreshold feer.height (mp'.stamp itm.id) = true
+                then mp'.resent ++ [itm.id] else mp'.resent) = _
+            have e1 : mp'.resendThreshold = thr := a2.trans h1
+            have e2 : mp'.stamp = st := a1.trans h2
+            have e3 : mp'.resent = _ := a3.trans h3
+            rw [e1, e2, e3, List.filter_append, List.map_append]
+            by_cases hd : dueForResend thr feer.height (st itm.id) = true
+            · simp [hd]
+            · simp [hd]
+        | false =>
+          simp only
+          exact ih _ _ (a2.trans h1) (a1.trans h2) (a3.trans h3)
+    · exact ih _ _ h1 h2 h3
+
+/-- `RemoveStale` calls the resend callback exactly for the kept transactions whose age is
+`resendThreshold * 2^k` blocks, in list order (and for nothing when the threshold is 0). -/
+theorem removeStale_resent (mp : Pool) (isOK : Tx → Bool) (feer : Feer) :
+    (removeStale mp isOK feer).resent
+      = ((removeStale mp isOK feer).txs.filter
+          (fun t => dueForResend mp.resendThreshold feer.height (mp.stamp t.id))).map (·.id) ∧
+    (removeStale mp isOK feer).resendThreshold = mp.resendThreshold ∧
+    (removeStale mp isOK feer).stamp = mp.stamp := by
+  unfold removeStale
+  simp only
+  have hlp : (loadPolicy mp feer).1.resendThreshold = mp.resendThreshold ∧ (loadPolicy mp feer).1.stamp = mp.stamp := by
+    unfold loadPolicy; split <;> exact ⟨rfl, rfl⟩
+  exact staleLoop_resent isOK feer (loadPolicy mp feer).2 mp.resendThreshold mp.stamp _ _ [] hlp.1 hlp.2 rfl
 
 end NeoModel.Mempool
